@@ -214,9 +214,21 @@ func (x *Exec) unknownCall(c *CallCtx) []Outcome {
 			a = iv.V
 		}
 		if p, ok := a.(PtrV); ok {
-			if tv, isTV := c.st.cells[p.Cell].(TV); isTV && tv.Ty != nil {
-				c.st.cells[p.Cell] = x.freshTV("extwr", tv.Ty, c.st)
-				x.warn("unmodelled external call %s may write through its pointer argument: target havocked", c.name)
+			switch cv := c.st.cells[p.Cell].(type) {
+			case TV:
+				if cv.Ty != nil {
+					c.st.cells[p.Cell] = x.freshTV("extwr", cv.Ty, c.st)
+					x.warn("unmodelled external call %s may write through its pointer argument: target havocked", c.name)
+				}
+			case MapRef:
+				if bt, ok := c.st.cells[cv.Cell].(TV); ok {
+					c.st.cells[cv.Cell] = x.freshTV("extwr", bt.Ty, c.st)
+					x.warn("unmodelled external call %s may write through its pointer argument: target map havocked", c.name)
+				}
+			case SliceRef:
+				if bt, ok := c.st.cells[cv.Cell].(TV); ok {
+					c.st.cells[p.Cell] = x.freshTV("extwr", bt.Ty, c.st)
+				}
 			}
 		}
 	}
@@ -1123,6 +1135,25 @@ func (c *cenv) TypedUF(name string) ([]types.Type, types.Type, bool) {
 		case "sigOK":
 			return []types.Type{iface, bz, bz}, types.Typ[types.Bool], true
 		}
+	}
+	for _, pre := range []string{"jsonStrictOK_", "jsonLenientOK_", "jsonStrict_", "jsonLenient_"} {
+		if strings.HasPrefix(name, pre) {
+			tag := strings.TrimPrefix(name, pre)
+			for _, pk := range c.x.L.Prog.AllPackages() {
+				if pk.Pkg == nil || !strings.HasPrefix(pk.Pkg.Path(), repoPrefix) {
+					continue
+				}
+				if t := pk.Type(tag); t != nil {
+					bz := types.NewSlice(types.Typ[types.Uint8])
+					if strings.Contains(pre, "OK_") {
+						return []types.Type{bz}, types.Typ[types.Bool], true
+					}
+					return []types.Type{bz}, t.Type(), true
+				}
+			}
+		}
+	}
+	switch name {
 	case "tmPk", "cmtPubKey":
 		cp := c.x.L.Prog.ImportedPackage("github.com/cometbft/cometbft/proto/tendermint/crypto")
 		if cp == nil || cp.Type("PublicKey") == nil {
